@@ -41,6 +41,9 @@ def literal_keys_read(f, dictname="results"):
 
 
 def run(ctx):
+    from ..shared import commit_idempotent_rule as _commit_idempotent_rule
+
+    _commit_idempotent_rule(ctx, "R15.12")
     from ..shared import state_alias_rule as _state_alias_rule
 
     _state_alias_rule(ctx, "R15.10", scope=lambda f, _s=("EasyFEA.Simulations", "EasyFEA.FEM._mesh"): f.module.name.startswith(_s), min_instances=100)
@@ -319,6 +322,7 @@ def run(ctx):
     from . import c14
 
     c14.staggered_flags_rule(ctx, simu)
+    c14.mesh_index_rule(ctx, "R15.11")
 
 
 
